@@ -52,6 +52,18 @@ def gen_setpwm(r, tier):
         ts = [r.range(-50, 305) for _ in range(20)] + [r.pick(sorted(pm)) for _ in range(5)]
         for t in ts:
             ops.append(f"w.setpwm t={t}")
+        # the same request again after the device was changed behind fan2go's back, and after a write that failed: the
+        # value must (again) be written - nothing may remember "already set" across a failure or a foreign change (seed C12e)
+        for _ in range(r.pick([1, 2, 3])):
+            t = r.pick(ts)
+            ops.append(f"w.setpwm t={t}")
+            if r.chance(0.5):
+                ops.append(f"w.dev pwm={r.range(0, 255)}")
+            else:
+                ops.append(f"w.dev pwmwrite={r.pick(['refused', 'refused', 'ignored'])}")
+                ops.append(f"w.setpwm t={t}")
+                ops.append("w.dev pwmwrite=applied")
+            ops.append(f"w.setpwm t={t}")
         # "for every PWM map": also for a map that REPLACES an earlier one on the same controller (re-detected / re-scaled
         # map: same supported inputs, other outputs; or an unrelated one), with the same requests again (seed C12d)
         for _ in range(r.pick([0, 0, 1, 2])):
@@ -134,7 +146,12 @@ class C12(Prop):
                     continue
                 m = parse_int_map(kv(cops[1])["map"])
                 keys = distinct_keys(m)
+                faulty = False
                 for i in range(2, len(cops)):
+                    if cops[i].startswith("w.dev") and "pwmwrite" in kv(cops[i]):
+                        faulty = kv(cops[i])["pwmwrite"] != "applied"
+                    if faulty:
+                        continue   # while the device does not take writes nothing can be "written"
                     if cops[i].startswith("w.setmap"):
                         m = parse_int_map(kv(cops[i])["map"])
                         keys = distinct_keys(m)
